@@ -12,7 +12,7 @@ Is(e) == l <= Len(Tr) /\ Ev.e = e /\ l' = l + 1
 TInit == PInit /\ l = 1 /\ nclients = 0
 TReset == /\ Is("Reset") /\ submitted' = <<>> /\ started' = {} /\ ended' = {} /\ delivered' = <<>> /\ workers' = {} /\ closed' = {}
           /\ UNCHANGED <<maxw, ordered, nclients>>
-TCfg == /\ Is("Cfg") /\ maxw' = Ev.max /\ ordered' = Ev.ordered /\ nclients' = Ev.clients
+TCfg == /\ Is("Cfg") /\ maxw' = Ev.max /\ ordered' = {Ev.ordc[i] : i \in DOMAIN Ev.ordc} /\ nclients' = Ev.clients
         /\ UNCHANGED <<submitted, started, ended, delivered, workers, closed>>
 TDispatch == Is("Dispatch") /\ Dispatch(Ev.c, Ev.j) /\ UNCHANGED nclients
 TJobStart == Is("JobStart") /\ JobStart(Ev.j, Ev.w) /\ UNCHANGED nclients
